@@ -18,7 +18,40 @@ only if every configured mock was generated and written.
    each must exit 0, not panic, and mock every declaration the contract marks as a package-level interface.
    The schema-rejected-data class is injected at each level WHILE the other levels carry conforming data for the
    same key, including values of another JSON type that print the same (false / "false", "1" / 1).
-4. Every hook trace is validated by TLC against spec/PipelineTrace.tla.
+4. Every hook trace is validated by TLC against spec/PipelineTrace.tla, and the complete event stream of a sample (quick)
+   / of all runs (thorough) against the root spec/MockeryTrace.tla.
+
+COVERAGE TABLE (statement / quantifier dimension -> explored by -> still a single point or absent)
+  listed interface missing      4 spellings (typo, case, suffix, trailing space), with all: true / listed / both, in one or
+                                two packages, nonexistent package with a listed interface          -> absent: missing in a
+                                package discovered by recursive: true
+  package fails to load         does not exist (4 path forms) x all / regex / listed; type error (interface unusable /
+                                function body / initialiser / duplicate), parse error x4, import error (missing package,
+                                missing symbol, IMPORT CYCLE, foreign internal package); each COMBINED with 7 unusual-but-
+                                valid traits of the same package; untidy-but-resolvable module  -> absent: cgo packages
+                                (statement says cgo-free), errors only in a dependency, GOFLAGS / GOOS from the environment
+  unknown template / formatter  every level, 3 formatter spellings                                 -> single point: one name
+  unknown key                   every level + package / interface struct level, 4 spellings
+  config value classes          EVERY position of the config tree (54, incl. every schema key at every level and the nested
+                                replace-type map) x 13 YAML value kinds; the file as text (15 shapes: tabs, duplicate keys,
+                                empty, garbage, BOM, CRLF, aliases, multi-document, deep nesting, NUL, huge scalar); the
+                                command line (8 shapes): never a panic / hang, exit status open unless the statement or the
+                                usage text decides it; null / empty sections and _anchors as VALID worlds
+                                                                    -> absent: MOCKERY_* environment values of odd types
+  invalid regular expression    include / exclude / exclude-subpkg x root / package x 4 expressions, only where in effect
+  cyclic templated value        in effect at every level (2 cycles, also with noop so a truncated value would surface);
+                                SHADOWED at root / package / interface (decided only at package level)
+  schema-rejected data          every level while the other levels conform, look-alikes of another JSON type, both built-in
+                                templates; custom schema (C10 worlds)
+  conflicting output file       source packages (also same NAME + same interface name), pkgname (also case only), template
+                                (also two custom URLs); root / package resp. interface / entry level; the valid look-alikes
+  never a panic: Go source      58 declaration kinds (local / alias / generic / build-tag / generated-header / //line
+                                families, go1.23 range-over-func) x 3 selection modes, sequences, 300 interfaces in one
+                                file, 150 files, 40 packages                       -> sampled, not arbitrary programs
+  never a panic: go.mod         10 module-line spellings, 17 nested go.mod shapes in the output directory, module's own
+                                go.mod without module directive                    -> absent: go.work in effect, vendor/
+  exit 0 only if all written    every run: configured mocks present (struct, and for same-name packages the own method);
+                                Exit / Write accounting by the trace specifications
 """
 import json
 import os
@@ -212,8 +245,16 @@ def build_input(root, case, ch):
             elif cls == "pkg-parseerr":
                 files[f"{p}/src.go"] += ["\ntype Broken interface{ M(x int string }\n", "\nfunc (\n", "\n}}}\n", "\ntype = 3\n"][v]
             elif cls == "pkg-importerr":
-                files[f"{p}/extra.go"] = f"package {p}\n\nimport _ \"{MOD}/does/not/exist\"\n" if v % 2 == 0 else \
-                    f"package {p}\n\nimport \"{MOD}/{p}/sub\"\n\nvar _ sub.Missing\n"
+                if v == 0:      # a package that does not exist
+                    files[f"{p}/extra.go"] = f"package {p}\n\nimport _ \"{MOD}/does/not/exist\"\n"
+                elif v == 1:    # an existing package without the symbol
+                    files[f"{p}/extra.go"] = f"package {p}\n\nimport \"{MOD}/{p}/sub\"\n\nvar _ sub.Missing\n"
+                elif v == 2:    # an import cycle: p -> p/sub -> p
+                    files[f"{p}/extra.go"] = f"package {p}\n\nimport _ \"{MOD}/{p}/sub\"\n"
+                    files[f"{p}/sub/back.go"] = f"package sub\n\nimport _ \"{MOD}/{p}\"\n"
+                else:           # an internal package of somebody else
+                    files["other/internal/secret/s.go"] = "package secret\n\nconst S = 1\n"
+                    files[f"{p}/extra.go"] = f"package {p}\n\nimport _ \"{MOD}/other/internal/secret\"\n"
             elif cls == "cyclic-shadowed":
                 # a cyclic value at the fault's level which EVERY level below overrides: no mock uses it
                 cyc = {"structname": ["Fake{{.StructName}}", "{{.StructName}}Y"][v % 2]}
@@ -537,6 +578,15 @@ def decl_text(kind, i):
                                 f"import __yyfmt{i}__ \"fmt\"\n\n//line gram{i}.y:2\n\n//go:generate goyacc -o y{i}.go gram{i}.y\n\n"
                                 f"type {T} interface {{\n\tLex(lval *int) int\n\tError(s string)\n}}\n\n//line yacctab:1\n"
                                 f"var yyExca{i} = [...]int8{{-1, 1}}\n\nvar _ = __yyfmt{i}__.Sprint\n")
+    elif kind == "iface-in-go123-syntax-file":
+        txt, mock = "", T
+        extra[f"ps/go123_{i}.go"] = (f"package ps\n\nimport (\n\t\"iter\"\n\t\"maps\"\n\t\"slices\"\n)\n\n"
+                                     f"func seq{i}(n int) iter.Seq2[int, string] {{\n\treturn func(yield func(int, string) bool) {{\n\t\tfor k := range n {{\n"
+                                     f"\t\t\tif !yield(k, \"x\") {{\n\t\t\t\treturn\n\t\t\t}}\n\t\t}}\n\t}}\n}}\n\n"
+                                     f"func use{i}() int {{\n\ttotal := 0\n\tfor k, v := range seq{i}(3) {{\n\t\ttotal += k + len(v)\n\t}}\n"
+                                     f"\tfor range 2 {{\n\t\ttotal = min(total, 10) + max(1, 2)\n\t}}\n\tm := map[string]int{{\"a\": 1}}\n"
+                                     f"\tkeys := slices.Sorted(maps.Keys(m))\n\tclear(m)\n\treturn total + len(keys)\n}}\n\n"
+                                     f"type {T} interface {{\n\tAll() iter.Seq[int]\n\tPairs() iter.Seq2[string, error]\n}}\n")
     elif kind == "goos-file":
         txt = ""
         extra[f"ps/x{i}_plan9.go"] = f"package ps\n\ntype {T} interface{{ M() }}\n"
@@ -631,6 +681,74 @@ NESTED = {
 }
 
 
+FUZZ_VALUES = {"null": None, "string": "some text", "empty-string": "", "int": 7, "float": 1.5, "bool": True, "empty-list": [],
+               "list-of-strings": ["a", "b"], "list-of-null": [None], "empty-map": {}, "map": {"k": "v"},
+               "nested-map": {"a": {"b": {"c": [1, {"d": None}]}}}, "templated-string": "{{.InterfaceName}}{{ .NoSuchField }}"}
+
+
+def fuzz_config(pos, val):
+    """a valid configuration in which the value at one position of the tree is replaced by a value of one YAML kind"""
+    P = f"{MOD}/ps"
+    conf = {"all": False, "dir": "mocks/{{.SrcPackageName}}", "filename": "mocks.go", "pkgname": "mocks", "structname": "{{.Mock}}{{.InterfaceName}}",
+            "template": "testify", "formatter": "goimports", "force-file-write": True, "template-data": {"unroll-variadic": True},
+            "exclude-subpkg-regex": ["nothing"], "include-interface-regex": "", "exclude-interface-regex": "", "recursive": False,
+            "build-tags": "vtag", "log-level": "info", "_anchors": {}, "template-schema": "{{.Template}}.schema.json",
+            "require-template-schema-exists": True,
+            "replace-type": {"example.com/w/ps": {"GenStruct": {"pkg-path": "example.com/w/ps", "type-name": "GenStruct"}}},
+            "packages": {P: {"config": {"all": True, "dir": "mocks/{{.SrcPackageName}}", "template-data": {}, "recursive": False,
+                                        "exclude-subpkg-regex": [], "replace-type": {}},
+                             "interfaces": {"Anchor": {"config": {"structname": "AnchorMock", "template-data": {}},
+                                                       "configs": [{"structname": "AnchorOne", "force-file-write": True, "template-data": {}}]}}}}}
+    path = {"root.replace-type.pkg": ["replace-type", "example.com/w/ps"], "root.replace-type.pkg.type": ["replace-type", "example.com/w/ps", "GenStruct"],
+            "root.replace-type.pkg.type.pkg-path": ["replace-type", "example.com/w/ps", "GenStruct", "pkg-path"],
+            "pkg": ["packages", P], "iface": ["packages", P, "interfaces", "Anchor"], "entry": ["packages", P, "interfaces", "Anchor", "configs", 0]}.get(pos)
+    if path is None:
+        head, _, rest = pos.partition(".")
+        base = {"root": [], "pkg": ["packages", P], "iface": ["packages", P, "interfaces", "Anchor"],
+                "entry": ["packages", P, "interfaces", "Anchor", "configs", 0]}[head]
+        path = base + rest.split(".")
+    cur = conf
+    for k in path[:-1]:
+        cur = cur[k]
+    cur[path[-1]] = FUZZ_VALUES[val]
+    return conf
+
+
+CFG_TEXT = {
+    "tabs-indent": "packages:\n\texample.com/w/ps:\n\t\tconfig:\n\t\t\tall: true\n",
+    "duplicate-keys": "dir: mocks/a\ndir: mocks/b\npackages:\n  example.com/w/ps:\n    config:\n      all: true\n      all: false\n  example.com/w/ps:\n    config:\n      all: true\n",
+    "empty-file": "", "only-comment": "# nothing configured\n", "garbage": "\x7fELF\x02\x01\x01 }{ ][ : - ? &*!|>'\"%@`\n",
+    "list-at-top": "- packages\n- example.com/w/ps\n", "scalar-at-top": "just a string\n",
+    "bom": "\ufeffdir: mocks/{{.SrcPackageName}}\npackages:\n  example.com/w/ps:\n    config:\n      all: true\n",
+    "crlf": "dir: \"mocks/{{.SrcPackageName}}\"\r\nfilename: mocks.go\r\npkgname: mocks\r\npackages:\r\n  example.com/w/ps:\r\n    config:\r\n      all: true\r\n",
+    "undefined-alias": "packages:\n  example.com/w/ps:\n    config: *nowhere\n",
+    "multi-document": "dir: a\n---\npackages:\n  example.com/w/ps:\n    config:\n      all: true\n---\n- 1\n",
+    "deep-nesting": "template-data:\n" + "".join("  " * (k + 1) + f"k{k}:\n" for k in range(60)) + "  " * 61 + "leaf: 1\npackages:\n  example.com/w/ps:\n    config:\n      all: true\n",
+    "nul-byte": "dir: mocks\x00/x\npackages:\n  example.com/w/ps:\n    config:\n      all: true\n",
+    "huge-scalar": "structname: \"" + "X" * 200000 + "\"\npackages:\n  example.com/w/ps:\n    config:\n      all: true\n",
+    "recursive-alias": "_anchors:\n  a: &a\n    self: *a\npackages:\n  example.com/w/ps:\n    config:\n      all: true\n",
+}
+
+
+def many_world(shape):
+    """hundreds of mocks / files / packages in one run"""
+    files, expected = {}, []
+    conf = {"dir": "mocks/{{.SrcPackageName}}", "filename": "mocks.go", "pkgname": "mocks", "packages": {}}
+    if shape == "40-packages":
+        for k in range(40):
+            files[f"many/p{k:02d}/x.go"] = f"package p{k:02d}\n\ntype I{k} interface{{ M{k}(x int) error }}\n"
+            conf["packages"][f"{MOD}/many/p{k:02d}"] = {"config": {"all": True}} if k % 2 else {"interfaces": {f"I{k}": {}}}
+            expected.append((f"mocks/p{k:02d}/mocks.go", f"MockI{k}"))
+    else:
+        n = 300 if shape.startswith("300") else 150
+        files["many/big/x.go"] = "package big\n\n" + "".join(f"type I{k} interface{{ M{k}(x int) (string, error) }}\n\n" for k in range(n))
+        conf["packages"][f"{MOD}/many/big"] = {"config": {"all": True}}
+        if shape.startswith("150"):
+            conf["filename"] = "mock_{{.InterfaceName}}.go"
+        expected = [(f"mocks/big/mock_I{k}.go" if shape.startswith("150") else "mocks/big/mocks.go", f"MockI{k}") for k in range(n)]
+    return files, conf, expected
+
+
 def build_valid(case):
     w = case["world"]
     files = {"ps/support.go": "package ps\n\n// Anchor is always there, so every world has something to write.\ntype Anchor interface{ Ping() }\n\n"
@@ -641,7 +759,10 @@ def build_valid(case):
     gomod = None
     expected = [("mocks/ps/mocks.go", "MockAnchor")]
     named = ["Anchor"]
-    if w["kind"] in ("decls", "gomod", "cfgshape", "gomod-nested", "gomod-root-nomodule"):
+    if w["kind"] == "many":
+        files, conf, expected = many_world(w["shape"])
+        return files, conf, None, expected
+    if w["kind"] in ("decls", "gomod", "cfgshape", "gomod-nested", "gomod-root-nomodule", "cfgfuzz", "cfgtext", "cli", "envfuzz"):
         body, imports = [], set()
         for i, k in enumerate(w["decls"], start=1):
             txt, extra, imps, mock = decl_text(k, i)
@@ -764,7 +885,17 @@ def build_valid(case):
         if w["ctx"] == "alone":
             del conf["packages"][f"{MOD}/ps"]
             expected = []
+    if w["kind"] == "cfgfuzz":
+        conf = fuzz_config(w["pos"], w["val"])
+    elif w["kind"] == "cfgtext":
+        conf = CFG_TEXT[w["shape"]]
     return files, conf, gomod, expected
+
+
+CLI = {"config-missing": (["--config", "does-not-exist.yml"], True), "config-is-dir": (["--config", "ps"], True),
+       "unknown-flag": (["--no-such-flag"], True), "no-config-anywhere": ([], False), "log-level-bogus": (["--log-level", "shouting"], True),
+       "extra-positional-arg": (["stray", "args"], True), "config-flag-empty": (["--config", ""], True),
+       "config-unreadable-yaml-dir-entry": (["--config", "./"], True)}
 
 
 def replay_valid(ctx, item, runs, runlock):
@@ -772,17 +903,30 @@ def replay_valid(ctx, item, runs, runlock):
     w, exp = case["world"], case["expect"]
     d = newdir(ctx, "v")
     files, conf, gomod, expected = build_valid(case)
+    args = ()
+    env = None
+    if w["kind"] == "envfuzz":
+        env = {"MOCKERY_" + w["pos"]: {"empty": "", "true": "true", "TRUE": "TRUE", "False": "False", "maybe": "maybe", "number": "7",
+                                        "json-map": '{"a": 1}', "list": "a,b", "spaces": "  x  ", "templated": "{{.InterfaceName}}{{.Nope}}"}[w["val"]]}
+    if w["kind"] == "cli":
+        args, keep_config = CLI[w["shape"]]
+        if not keep_config:
+            conf = None
     materialise(d, files, conf, gomod)
-    r = pipetrace.run(ctx, d)
+    r = pipetrace.run(ctx, d, args=args, env=env, timeout=300 if w["kind"] == "many" else 120)
     with runlock:
         runs.append((r, item["id"]))
     if r.timed_out:
+        if exp["exit"] == "any":       # a hang on malformed input is as bad as a crash
+            return [({"world": w["kind"], "shape": w["shape"], "pos": w.get("pos", "-"), "val": w.get("val", "-"), "kind": "hang"},
+                     {"case": case, "config": conf})], {"id": item["id"], "world": {k: w.get(k, "-") for k in ("kind", "decls", "select", "spelling", "layout", "shape", "ctx")}, "exit": -9, "mocks_expected": []}
         raise MachineryError(f"mockery timed out on valid world {item['id']}")
     kinds = list(w["decls"])
     sig0 = {"world": w["kind"], "shape": w["shape"], "spelling": w["spelling"] if w["kind"] == "gomod" else "-",
             "layout": w["layout"], "has_local": bool(case.get("has_local")), "has_alias": bool(case.get("has_alias")),
-            "select": w.get("select", "all")}
-    detail = {"case": case, "config": conf, "run": r.brief(), "decls_go": files.get("ps/decls.go")}
+            "select": w.get("select", "all"), "pos": w.get("pos", "-"), "val": w.get("val", "-")}
+    detail = {"case": case, "config": conf if len(str(conf)) < 5000 else str(conf)[:5000], "args": list(args), "run": r.brief(),
+              "decls_go": files.get("ps/decls.go")}
     out = []
     if r.panicked:
         out.append((dict(sig0, kind="panic", decl=next((k for k in kinds if k.startswith(("local", "alias", "defined")) or "shadow" in k), kinds[0] if kinds else "-")), detail))
@@ -793,7 +937,7 @@ def replay_valid(ctx, item, runs, runlock):
         out.append((dict(sig0, kind="valid-input-rejected", decl=kinds[0] if len(set(kinds)) == 1 else "+".join(sorted(set(kinds)))), detail))
     if r.code != 0 and not has_diagnostic(r):
         out.append((dict(sig0, kind="no-diagnostic"), detail))
-    if r.code == 0:
+    if r.code == 0 and exp["exit"] == "zero":
         for rel, struct, *needle in expected:
             p = d / rel
             txt = p.read_text(errors="replace") if p.is_file() else ""
@@ -895,7 +1039,8 @@ def run(ctx):
         for i, c in enumerate(cases):
             v0 = rng.randrange(4)
             occupied = any(v != "absent" for v in c["world"]["fs0"].values())
-            for k in range(1 if occupied else reps):
+            combined = c["world"]["fault"].get("feature", "-") != "-" and c["world"]["fault"]["class"].startswith("pkg-")
+            for k in range(1 if occupied or (combined and not thorough) else reps):
                 ch = choose_input(c, rng)
                 ch["variant"] = (v0 + (k if thorough else 2 * k)) % 4
                 items.append({"id": f"i{i}.{k}", "case": c, "choices": ch})
